@@ -155,10 +155,12 @@ static Val do_load(State &s, const Val &p, unsigned bits, bool want_ptr)
   // enumerate the feasible offsets; through the narrow variables they depend on when possible
   Support sp = small_support(*p.e, OPT.support_bits);
   std::vector<std::pair<z3::expr, uint64_t>> targets;     // (condition, offset)
-  if (sp.ok)
+  bool too_wide = false;
+  std::vector<uint64_t> as;
+  if (sp.ok) as = feasible_assignments(s, sp, &too_wide);
+  if (sp.ok && !too_wide)
   {
     z3::expr cat = support_cat(sp);
-    std::vector<uint64_t> as = feasible_assignments(s, sp);
     std::map<uint64_t, std::vector<uint64_t>> byoff;
     for (uint64_t a : as) byoff[eval_under(sp, *p.e, a)].push_back(a);
     if (byoff.size() > MAX_SYM_TARGETS) die("symbolic load offset with more than %u targets in %s", MAX_SYM_TARGETS, o.name.c_str());
@@ -171,6 +173,7 @@ static Val do_load(State &s, const Val &p, unsigned bits, bool want_ptr)
   }
   else
   {
+    if (OPT.verbose) fprintf(stderr, "symx: enumerating load offset in %s: %s\n", o.name.c_str(), p.e->to_string().substr(0, 600).c_str());
     std::vector<uint64_t> offs = feasible_values(s, *p.e, MAX_SYM_TARGETS);
     if (offs.size() > MAX_SYM_TARGETS) die("symbolic load offset with more than %u targets in %s", MAX_SYM_TARGETS, o.name.c_str());
     for (uint64_t off : offs) targets.push_back({*p.e == Z.bv_val(off, 64), off});
